@@ -336,7 +336,10 @@ def jobs(tier, seed):
     if tier != 'quick':
         trees += [['all', ['any', T, T], ['any', T, T]], ['any', ['all', T, T], ['all', T, T]],
                   ['all', ['any', ['all', T, T], T], T], ['any', ['all', ['any', T, EF], T], T],
-                  ['all', T, T, T, T], ['any', ['all', T, EO], ['any', P, EF]], ['or', ['and', T, EF], ['and', T, T]]]
+                  ['all', T, T, T, T], ['any', ['all', T, EO], ['any', P, EF]], ['or', ['and', T, EF], ['and', T, T]],
+                  ['any', T, T, T, T], ['all', ['all', T, T], ['all', T, T]], ['and', ['or', T, EF], ['or', EF, T]],
+                  ['any', ['any', ['any', T, EF], T], T], ['all', ['all', ['all', T, T], EF], T],
+                  ['or', ['and', P, T], ['and', EO, T]], ['all', ['any', T, T, T], T], ['any', ['all', T, T, T], EF]]
     js = []
     for ti, tr in enumerate(trees):
         js.append({'harness': 'cond', 'cfg': {'tree': tr, 'sorts': ('int', 'real', 'mixed')[ti % 3]},
